@@ -1896,3 +1896,154 @@ func RuleST1(c *Ctx) {
 		sc.Undecided("types", "-", "no string-typed name with a String() method in package catalog")
 	}
 }
+
+// ---------------------------------------------------------------- MW1
+
+// RuleMW1: a conditional copy in a hand-written marshaller carries its own field only. The
+// marshallers of package catalog fill a local wire struct field by field from the receiver
+// (`data.Note = c.Note`) and hand it to the encoder. Some copies are conditional on the
+// copied field itself (`if c.Rules != nil && c.Rules.Len() != 0 { data.Rules = ... }`,
+// `if len(c.Children) == 0 { ... } else { data.Children = c.Children }`). The copy of
+// ANOTHER field placed inside such an if-statement - one whose condition reads field H, whose
+// branches copy H, and which does not read the other field - makes that field vanish from
+// the output for some values of H: a property's inheritedFrom mark written only when the
+// property has children. (A switch on the type's discriminant - the schema notation - is a
+// choice between variants, not a conditional copy, and is not judged.)
+func RuleMW1(c *Ctx) {
+	sc := c.Run.Begin("MW1", "in the call tree of every hand-written MarshalJSON of package catalog, no copy `wire.F = recv.G...` into the local wire structure sits inside the conditional copy of another field (an if whose condition reads recv.H and whose branches copy recv.H)", 5)
+	defer sc.End()
+	pk := c.P.Pkg("catalog")
+	if pk == nil {
+		sc.Undecided("anchors", "-", "unresolved anchor: package catalog")
+		return
+	}
+	info := pk.TypesInfo
+	var roots []*types.Func
+	c.P.Funcs(func(p *pkgT, fd *ast.FuncDecl) {
+		if p == pk && fd.Recv != nil && fd.Name.Name == "MarshalJSON" {
+			if f, ok := info.Defs[fd.Name].(*types.Func); ok {
+				roots = append(roots, f)
+			}
+		}
+	})
+	for _, f := range reachStatic(c.P, pk, roots) {
+		fd := c.P.Decl(f)
+		if fd == nil || fd.Recv == nil || len(fd.Recv.List) != 1 || len(fd.Recv.List[0].Names) != 1 || c.P.PkgOfDecl(fd) != pk {
+			continue
+		}
+		recv := info.ObjectOf(fd.Recv.List[0].Names[0])
+		// fieldOfRecv: the first field selected from the receiver in e, "" when e does not read it
+		fieldsOfRecv := func(e ast.Node) map[string]bool {
+			out := map[string]bool{}
+			ast.Inspect(e, func(x ast.Node) bool {
+				if sel, ok := x.(*ast.SelectorExpr); ok {
+					if id, ok := ast.Unparen(sel.X).(*ast.Ident); ok && info.ObjectOf(id) == recv {
+						if _, isField := info.ObjectOf(sel.Sel).(*types.Var); isField {
+							out[sel.Sel.Name] = true
+						}
+					}
+				}
+				return true
+			})
+			return out
+		}
+		var conds []*ast.IfStmt
+		k := 0
+		var walk func(n ast.Node)
+		walkList := func(l []ast.Stmt) {
+			for _, st := range l {
+				walk(st)
+			}
+		}
+		walk = func(n ast.Node) {
+			switch s := n.(type) {
+			case *ast.BlockStmt:
+				walkList(s.List)
+			case *ast.IfStmt:
+				conds = append(conds, s)
+				walk(s.Body)
+				if s.Else != nil {
+					walk(s.Else)
+				}
+				conds = conds[:len(conds)-1]
+			case *ast.SwitchStmt:
+				for _, cl := range s.Body.List {
+					walkList(cl.(*ast.CaseClause).Body)
+				}
+			case *ast.ForStmt:
+				walk(s.Body)
+			case *ast.RangeStmt:
+				walk(s.Body)
+			case *ast.AssignStmt:
+				if len(s.Lhs) != 1 || len(s.Rhs) != 1 || s.Tok != token.ASSIGN {
+					return
+				}
+				lsel, ok := ast.Unparen(s.Lhs[0]).(*ast.SelectorExpr)
+				if !ok {
+					return
+				}
+				wid, ok := ast.Unparen(lsel.X).(*ast.Ident)
+				if !ok {
+					return
+				}
+				wobj, ok := info.ObjectOf(wid).(*types.Var)
+				if !ok || wobj == recv || wobj.Parent() == pk.Types.Scope() {
+					return
+				}
+				if _, isStruct := wobj.Type().Underlying().(*types.Struct); !isStruct {
+					return
+				}
+				src := fieldsOfRecv(s.Rhs[0])
+				if len(src) == 0 {
+					return
+				}
+				k++
+				key := fmt.Sprintf("%s:%s#%d", c.P.DeclName(fd), lsel.Sel.Name, k)
+				bad := ""
+				for _, ifs := range conds {
+					reads := fieldsOfRecv(ifs.Cond)
+					shared := false
+					for g := range src {
+						if reads[g] {
+							shared = true
+						}
+					}
+					if shared || len(reads) == 0 {
+						continue
+					}
+					// is this if-statement the conditional copy of a field its condition reads?
+					own := false
+					ast.Inspect(ifs, func(y ast.Node) bool {
+						as, ok := y.(*ast.AssignStmt)
+						if !ok || as == s || len(as.Lhs) != 1 || len(as.Rhs) != 1 {
+							return true
+						}
+						if _, isSel := ast.Unparen(as.Lhs[0]).(*ast.SelectorExpr); !isSel {
+							return true
+						}
+						for h := range fieldsOfRecv(as.Rhs[0]) {
+							if reads[h] {
+								own = true
+							}
+						}
+						return true
+					})
+					if own {
+						bad = types.ExprString(ifs.Cond)
+					}
+				}
+				if bad == "" {
+					sc.Holds(key, c.P.Pos(s.Pos()), fmt.Sprintf("not inside the conditional copy of another field (%d enclosing if-statements)", len(conds)))
+				} else {
+					var names []string
+					for g := range src {
+						names = append(names, g)
+					}
+					sort.Strings(names)
+					sc.Violation(key, c.P.Pos(s.Pos()), "the field "+strings.Join(names, ",")+" reaches the wire structure only under `"+bad+"`, a condition that does not read it: for some values of another field it is silently left out of the JSON")
+				}
+			}
+		}
+		walk(fd.Body)
+	}
+}
